@@ -97,3 +97,46 @@ package remote
 //@   ensures [limit_recorded] m.qps == qps
 //@   ensures [outage_keeps_local] old(m.serverUnavailable) != 0 ==> fcsize == old(fcsize) && fcburst == old(fcburst)
 //@   ensures [healthy_resizes] old(m.serverUnavailable) == 0 ==> fcsize[m.FlowControl] == qps && fcburst[m.FlowControl] == burst
+
+// The meter wrapper is what every request actually calls (it is what newMeterFlowControl returns): an acquire is forwarded
+// to the limiter exactly once and reports the limiter's answer, a release gives the slot back to the limiter exactly once.
+//@ func (*meterWrapper).TryAcquire props C05
+//@   requires [wf] f.meter != nil
+//@   modifies *
+//@   ensures [answer_is_limiters] (result ==> held[old(f.FlowControl)] == old(held[f.FlowControl]) + 1 && acqfailed == old(acqfailed)) && (!result ==> held[old(f.FlowControl)] == old(held[f.FlowControl]) && acqfailed == old(acqfailed) + 1)
+//@   ensures [others_untouched] forall g ref :: {held[g]} g != old(f.FlowControl) ==> held[g] == old(held[g])
+//@   ensures [same_limiter] f.FlowControl == old(f.FlowControl)
+//@ func (*meterWrapper).Release props C05
+//@   requires [wf] f.meter != nil
+//@   modifies *
+//@   ensures [released_once] held[old(f.FlowControl)] == old(held[f.FlowControl]) - 1
+//@   ensures [others_untouched] forall g ref :: {held[g]} g != old(f.FlowControl) ==> held[g] == old(held[g])
+//@   ensures [same_limiter] f.FlowControl == old(f.FlowControl)
+
+// Whatever the limiter server said (or did not say), a request is admitted under a global max-in-flight schema only if the
+// inner limiter -- the one SetLimit / Resize keep within the configured global limit -- admitted it, and a release gives
+// that slot back to the same limiter exactly once (C09).
+//@ func waitAcquire props C09
+//@   trusted "waits (bounded) on the condition variable for the next server answer; reads lastAcquireTime atomically, writes nothing shared"
+//@   modifies clock
+//@ func (*maxInflightWrapper).TryAcquire props C09
+//@   requires [wf] m.fcc != nil && m.meter != nil
+//@   modifies *
+//@   ensures [admitted_by_inner] (result ==> held[old(m.FlowControl)] == old(held[m.FlowControl]) + 1) && (!result ==> held[old(m.FlowControl)] == old(held[m.FlowControl]))
+//@   ensures [same_limiter] m.FlowControl == old(m.FlowControl) && fcsize == old(fcsize)
+//@ func (*maxInflightWrapper).Release props C09
+//@   modifies *
+//@   ensures [released_once] held[old(m.FlowControl)] == old(held[m.FlowControl]) - 1
+//@   ensures [same_limiter] m.FlowControl == old(m.FlowControl) && fcsize == old(fcsize)
+
+// The token-bucket wrapper: a request is admitted only if the inner bucket (sized to the configured global rate) admitted it;
+// the server-granted tokens can only refuse more, never admit more. The inner bucket is asked exactly once.
+//@ func (*tokenBucketWrapper).TryAcquire props C09
+//@   requires [wf] m.fcc != nil && m.meter != nil
+//@   modifies *
+//@   ensures [admitted_by_inner] result ==> held[old(m.FlowControl)] == old(held[m.FlowControl]) + 1
+//@   ensures [inner_asked_once] held[old(m.FlowControl)] <= old(held[m.FlowControl]) + 1 && held[old(m.FlowControl)] + acqfailed == old(held[m.FlowControl]) + old(acqfailed) + 1
+//@   ensures [same_limiter] m.FlowControl == old(m.FlowControl) && fcsize == old(fcsize)
+//@ func (*emptyGlobalWrapper).TryAcquire props C09
+//@   modifies *
+//@   ensures [admitted_by_inner] (result ==> held[old(f.FlowControl)] == old(held[f.FlowControl]) + 1) && (!result ==> held[old(f.FlowControl)] == old(held[f.FlowControl]))
